@@ -471,6 +471,10 @@ def to_model(data_file: typing.IO, _config = None, progress_callback=lambda _: N
         state = _State.LOOKING
         continue
 
+      if "-->" in line:
+        # comment and style blocks cannot contain "-->": the first line was a cue identifier
+        state = _State.LOOKING
+
     if state is _State.LOOKING:
       if line is None:
         break
